@@ -119,7 +119,11 @@ func cls(s string) string {
 }
 
 var Kinds = []string{"readers3", "kmeans", "readers2", "heightmap", "readers3", "objbuild", "render", "c12:mc",
-	"readers3", "c12:dc", "readers2", "c12:ms", "readers3", "c12:raster", "render", "c12:mcsearch"}
+	"readers3", "c12:dc", "readers2", "c12:ms", "readers3", "c12:raster", "render", "c12:mcsearch",
+	"readers3", "kmeans", "readers2", "heightmap", "readers3", "objbuild", "render", "c12:mc",
+	"readers3", "c12:dc", "readers2", "c12:ms", "readers3", "c12:raster", "render", "c12:mcsearch",
+	"readers3", "kmeans", "readers2", "heightmap", "readers3", "objbuild", "render", "c12:mc",
+	"readers3", "c12:dc", "readers2", "c12:ms", "readers3", "c12:raster", "c12:dcbig", "c12:mcsearch"}
 
 func RunCase(t *testing.T, c *Case, work, sched *choice.Source, st *Stats) (fs []Finding) {
 	r := &runner{t: t, st: st, sched: sched}
@@ -148,6 +152,11 @@ func RunCase(t *testing.T, c *Case, work, sched *choice.Source, st *Stats) (fs [
 		}
 		st.Steps, st.Preempt, st.Tasks, st.MaxRunnable = cst.Steps, cst.Preempt, cst.Tasks, cst.MaxRunnable
 		st.TraceHashes, st.Workers, st.Desc, st.MapDep = cst.TraceHashes, cst.Workers, cst.Desc, cst.MapDep
+		for k, v := range cst.Probes {
+			for i := 0; i < v; i++ {
+				st.probe("c12." + k)
+			}
+		}
 		return fs
 	}
 	panic("unknown kind " + c.Kind)
